@@ -29,6 +29,9 @@ import (
 
 func seq(tier string, sh *vkit.Shard, p *vkit.Part) {
 	deadline := vkit.Deadline(tier, 75*time.Second, 17*time.Minute)
+	if len(p.Samples) > 1 {
+		p.Samples = p.Samples[:1] // leave room for sequential sample programs next to the scheduled ones
+	}
 	if os.Getenv("VERIF_C20_NOSEQ") != "" { // experiments with the concurrent scenarios only
 		return
 	}
